@@ -98,13 +98,16 @@ SPEC = {
     "rule": "cases = generated multi-graph databases (0-8 nodes, 0-9 relationships per graph; ids with gaps incl. id 0, nodes without kinds, multi-kind "
             "nodes, parallel relationships, self loops, nested list/map properties, unicode, ints/floats/bools/null, nil property objects, empty graphs) "
             "x codec {none,gzip,zstd} x batch/shard in {1,2,3,count,count+-1}, each case = real Dump -> Load -> Verify -> one mutation of the loaded "
-            "database -> Verify, all from splitmix64(VERIF_SEED); suite c18 compares every answer with the Lean model, suite obs18 feeds raw "
+            "database -> Verify, then the same dump INTERRUPTED (crash at a random hook point, or a DB read error at a random fetch) and resumed -> Load -> "
+            "graph comparison -> Verify; for every sixth database every crash point and every fetch of one configuration (batch 2, shard 2); graphs of a "
+            "database may reuse node / relationship ids (each numbering from the start), one may be empty; all from splitmix64(VERIF_SEED); suite c18 compares every answer with the Lean model, suite obs18 feeds raw "
             "observations (manifest entries next to recomputed sha256/sizes/record counts, directory listing, loaded graph) to the Lean monitor; "
             "a case is non-trivial when a shard rollover happened (>= 3 fragments), at least one relationship was loaded and both verifications "
             "were answered; distinct = distinct op-line sequences (sha1)",
     "expected_branches": ["branch.fragment_full", "branch.fragment_partial", "branch.empty_node_phase", "branch.empty_edge_phase",
                           "branch.count_multiple_of_shard", "branch.multi_graph", "verify.mismatch", "verify.ok",
-                          "gen.self_loop", "gen.parallel_edge", "mutate.rewire", "mutate.setprop"],
+                          "gen.self_loop", "gen.parallel_edge", "mutate.rewire", "mutate.setprop", "gen.graphs_restart_ids",
+                          "gen.interrupted_dumps", "idump.ok", "idump.stuck.unexpected-file", "idump.stale_checkpoint"],
     "trusted_base": ["encoding/json, compress/gzip, klauspost zstd, crypto/sha256 (modelled as an abstract codec with dec(enc x) = x; the JSON text "
                      "round trip of property values is checked by the tie on every run)",
                      "harness/fakedb.go: in-memory graph.Database fake interpreting the keyset criteria the retriever emits (real drivers not exercised)"],
